@@ -232,8 +232,9 @@ def strat_batching(tier):
 class FailingSeq:
   """Random-access sequence whose reads fail at given positions (a slice read fails if it covers a bad position)."""
 
-  def __init__(self, data, bad, exc):
+  def __init__(self, data, bad, exc, no_slice=False):
     self.data, self.bad, self.exc = list(data), set(bad), exc
+    self.no_slice = no_slice     # a source that supports integer indexing only (the case the read-ahead fallback exists for)
     self.reads = 0
 
   def __len__(self):
@@ -242,6 +243,8 @@ class FailingSeq:
   def __getitem__(self, i):
     self.reads += 1
     if isinstance(i, slice):
+      if self.no_slice:
+        raise TypeError(f'only integer indexing is supported, got {type(i)}')
       idx = range(*i.indices(len(self.data)))
       hit = [j for j in idx if j in self.bad]
       if hit:
@@ -256,13 +259,22 @@ def run_source(case):
   from ml_metrics._src.chainables import io, transform  # pylint: disable=g-import-not-at-top
   n, bad, exc, skip = case['n'], sorted(set(case['bad'])), case['exc'], case['skip']
   what = f'SequenceDataSource(range({n}) failing at {bad} with {exc}, ignore_error={skip}) shard={case["shard"]}'
-  seq = FailingSeq(list(range(n)), bad, exc)
-  src = io.SequenceDataSource(seq, ignore_error=skip)
-  lo, hi = 0, n
+  no_slice = case.get('no_slice', False)
+  what += f' no_slice={no_slice} splits={case.get("splits")}'
+  if case.get('splits'):
+    # several sequences merged into one source; every sequence has its own failing positions (global numbering)
+    cuts = [0] + sorted(min(c, n) for c in case['splits']) + [n]
+    seqs = [FailingSeq(list(range(a, b)), [p - a for p in bad if a <= p < b], exc, no_slice) for a, b in zip(cuts, cuts[1:])]
+    src = io.SequenceDataSource.from_sequences(seqs, ignore_error=skip)
+    plain = io.SequenceDataSource.from_sequences([list(range(a, b)) for a, b in zip(cuts, cuts[1:])])
+  else:
+    src = io.SequenceDataSource(FailingSeq(list(range(n)), bad, exc, no_slice), ignore_error=skip)
+    plain = io.SequenceDataSource(list(range(n)))
   if case['shard']:
     i, k = case['shard']
-    src = src.shard(i, k)
-    lo, hi = src.start, src.end
+    src, plain = src.shard(i, k), plain.shard(i, k)
+  mine = [int(v) for v in plain]            # the elements of this (shard of the) source when nothing fails
+  lo, hi = (mine[0], mine[-1] + 1) if mine else (0, 0)
   t = transform.TreeTransform.new().data_source(src).apply(targets.add1)
   skippable = exc in ('ValueError', 'TypeError')
   got, err = [], []
@@ -295,9 +307,13 @@ def strat_source(tier):
     bad = draw(st.lists(st.integers(0, max(n - 1, 0)), max_size=4)) if n else []
     if bad and draw(st.booleans()):
       bad.append(min(bad[0] + 1, n - 1))
-    shard = draw(st.one_of(st.none(), st.tuples(st.integers(0, 2), st.just(3)).map(list)))
-    return {'n': n, 'bad': bad, 'exc': draw(st.sampled_from(['ValueError', 'TypeError', 'KeyError', 'RuntimeError'])),
-            'skip': draw(st.booleans()), 'shard': shard}
+    k = draw(st.integers(2, 6))
+    shard = draw(st.one_of(st.none(), st.tuples(st.integers(0, 2), st.just(3)).map(list), st.tuples(st.integers(0, k - 1), st.just(k)).map(list)))
+    case = {'n': n, 'bad': bad, 'exc': draw(st.sampled_from(['ValueError', 'TypeError', 'KeyError', 'RuntimeError'])),
+            'skip': draw(st.booleans()), 'shard': shard, 'no_slice': draw(st.sampled_from([False, False, True]))}
+    if n and draw(st.integers(0, 3)) == 0:
+      case['splits'] = draw(st.lists(st.integers(0, n), min_size=1, max_size=3))
+    return case
   return s()
 
 
